@@ -552,45 +552,62 @@ func (i *Interpreter) ExecuteRoute(route *Route, request *Request) (*Response, e
 		}
 	}
 
-	// Always add request body to environment (even if nil)
-	// This ensures 'input' variable is always available in routes
 	inputValue := request.Body
-	if inputValue != nil {
-		// If route has an InputType declared, apply defaults and validate
-		if route.InputType != nil {
-			if namedType, ok := route.InputType.(NamedType); ok {
-				if typeDef, exists := i.typeDefs[namedType.Name]; exists {
-					if inputObj, ok := inputValue.(map[string]interface{}); ok {
-						// Apply defaults for missing fields
-						inputWithDefaults, err := i.ApplyTypeDefaults(inputObj, typeDef, routeEnv)
-						if err != nil {
-							return &Response{
-								StatusCode: 400,
-								Body: map[string]interface{}{
-									"error": fmt.Sprintf("error applying defaults: %v", err),
-								},
-							}, err
-						}
-						inputValue = inputWithDefaults
-
-						// Validate input against the TypeDef
-						if err := i.typeChecker.ValidateObjectAgainstTypeDef(inputWithDefaults, typeDef); err != nil {
-							return &Response{
-								StatusCode: 400,
-								Body: map[string]interface{}{
-									"error": fmt.Sprintf("input validation failed: %v", err),
-								},
-							}, err
-						}
+	if route.InputType != nil {
+		if namedType, ok := route.InputType.(NamedType); ok {
+			if typeDef, exists := i.typeDefs[namedType.Name]; exists {
+				// The declared contract applies to every request. A body that
+				// is absent (or was not JSON) is validated as an empty object,
+				// so missing required fields are reported; a body that is not
+				// an object cannot satisfy an object type at all. (Both used to
+				// skip validation and run the route with whatever arrived.)
+				inputObj, isObj := inputValue.(map[string]interface{})
+				if !isObj {
+					if inputValue != nil {
+						err := fmt.Errorf("input validation failed: expected a JSON object for %s", namedType.Name)
+						return &Response{
+							StatusCode: 400,
+							Body: map[string]interface{}{
+								"error": err.Error(),
+							},
+						}, err
 					}
+					inputObj = map[string]interface{}{}
+				}
+
+				// Apply defaults for missing fields
+				inputWithDefaults, err := i.ApplyTypeDefaults(inputObj, typeDef, routeEnv)
+				if err != nil {
+					return &Response{
+						StatusCode: 400,
+						Body: map[string]interface{}{
+							"error": fmt.Sprintf("error applying defaults: %v", err),
+						},
+					}, err
+				}
+
+				// Validate input against the TypeDef
+				if err := i.typeChecker.ValidateObjectAgainstTypeDef(inputWithDefaults, typeDef); err != nil {
+					return &Response{
+						StatusCode: 400,
+						Body: map[string]interface{}{
+							"error": fmt.Sprintf("input validation failed: %v", err),
+						},
+					}, err
+				}
+
+				// An absent body stays null for the route; a present one is
+				// seen with its defaults applied.
+				if isObj {
+					inputValue = inputWithDefaults
 				}
 			}
 		}
-		routeEnv.Define("input", inputValue)
-	} else {
-		// Define input as nil/empty map for routes without body
-		routeEnv.Define("input", nil)
 	}
+
+	// Always add request body to environment (even if nil)
+	// This ensures 'input' variable is always available in routes
+	routeEnv.Define("input", inputValue)
 
 	// Bind request headers as 'headers' object so route handlers can
 	// read them via headers["Content-Type"] or headers.Authorization.
